@@ -66,8 +66,55 @@ def run(facts, tier):
     from props import c14
     staleidx.rule(facts, res, "R07-3", lambda f: f["crate"] in ("xml_info", "xml_dom"), floor=7)
     c14.c14_8(facts, res, "R07-4")
+    fresh_key_rule(facts, res, "R07-5")
     res.functions_analysed = len(fns)
     return res
+
+
+XPATH_ITEM_KINDS = ("XmlAttribute", "XmlNamespace", "XmlElement", "XmlText", "XmlCData", "XmlComment", "XmlProcessingInstruction",
+                    "XmlCharReference", "XmlUnexpandedEntityReference", "XmlDocumentTypeDeclaration")
+
+
+def fresh_key_rule(facts, res, rule="R07-5"):
+    """Node-sets are de-duplicated and sorted by the order key, and the key of an item is looked up by the id of its
+    context.  Every construction of an item that XPath can return therefore needs a context of its own (`context.next()`);
+    an item built with `context.zero()` has key 0 like every other such item, one built with a *clone* of another item's
+    context has that item's key - distinct nodes then count as one node."""
+    from facts import walk
+    st = res.rule(rule, instances=0)
+
+    def desc(e):
+        if e.get("k") == "MethodCall":
+            return desc(e["recv"]) + "." + e["m"] + "()"
+        if e.get("k") == "Path":
+            return e.get("name") or str(e.get("path"))
+        if e.get("k") == "Field":
+            return desc(e["a"]) + "." + e["name"]
+        return str(e.get("k"))
+    for f in sorted(facts.fns.values(), key=lambda x: x["path"]):
+        if f["crate"] != "xml_info" or "body" not in f or f.get("derived") or "::tests::" in f["path"]:
+            continue
+        ordn = {}
+        for n in walk(f["body"]):
+            if n.get("k") != "Struct":
+                continue
+            kind = str(n.get("path", "")).split("::")[-1]
+            if kind not in XPATH_ITEM_KINDS:
+                continue
+            ce = [fl["e"] for fl in n.get("fields", []) if fl["name"] == "context"]
+            if not ce:
+                continue
+            st["instances"] += 1
+            d = desc(ce[0])
+            ok = d.endswith(".next()")
+            res.oblige(1, ok)
+            if not ok:
+                ordn[kind] = ordn.get(kind, 0) + 1
+                res.add(Finding(rule, "%s|%s#%d" % (f["path"], kind, ordn[kind]), "%s builds a %s whose context is `%s`: the item has no id / order key "
+                                "of its own, so distinct nodes of this kind are merged by the key-based de-duplication of node-sets"
+                                % (f["path"], kind, d), f["file"], n.get("ln"), {}))
+    if st["instances"] < 12:
+        raise BrokenCheck("%s: %d item constructions (floor 12)" % (rule, st["instances"]))
 
 
 def summary_rule(facts, res, rule="R07-1"):
